@@ -2,14 +2,16 @@
 
     A case is one generated world (configuration, owner objects, sibling pods)
     plus several runs of the REAL reconciler over it, each from a fresh API
-    store: a list of events (reconcile pod i / foreign update of a PodGroup)
-    with, per event, the number of mutating API calls, the error flag, the
+    store: a list of events (reconcile pod i / foreign update of a PodGroup,
+    labels and annotations of other actors included / an owner object loses
+    label or annotation keys) with, per event, the number of mutating API calls, the error flag, the
     pod's pod-group annotation, and the touched PodGroup before and after; and
     the final store. *)
 From KaiV Require Export Run.Prelude Model.Grouper Model.GrouperSpec.
 Open Scope Z_scope.
 
-Inductive ev := RecE (i : nat) | ForE (name : string) (f : foreign_upd).
+(** [OwnE j o]: the [j]-th owner object of the cluster is replaced by [o] (the harness only removes keys) *)
+Inductive ev := RecE (i : nat) | ForE (name : string) (f : foreign_upd) | OwnE (j : nat) (o : obj).
 
 Record ev_obs := {
   eo_writes : Z;                 (* Create + Update + Patch (+ any other mutating call) *)
@@ -58,34 +60,44 @@ Definition model_err (cfg : config) (cl : list obj) (p : pod) (a : option string
   negb (is_orphan p a)
   && match reconcile_md cfg cl p a with MdOk _ => false | _ => true end.
 
-(** one event: does the model reproduce the observation? returns the model's next state *)
-Definition agree_event (k : case) (s : state) (e : ev * ev_obs) : state * bool :=
+Fixpoint replace_nth {A} (j : nat) (x : A) (l : list A) : list A :=
+  match l, j with
+  | [], _ => []
+  | _ :: r, O => x :: r
+  | y :: r, S j' => y :: replace_nth j' x r
+  end.
+
+(** one event: does the model reproduce the observation? returns the model's next state and cluster *)
+Definition agree_event (k : case) (sc : state * list obj) (e : ev * ev_obs) : (state * list obj) * bool :=
+  let s := fst sc in
+  let cl := snd sc in
   let o := snd e in
   match fst e with
   | RecE i =>
     match nth_error (k_pods k) i with
-    | None => (s, false)
+    | None => (sc, false)
     | Some p =>
-      let r := reconcile (k_cfg k) (k_cluster k) p s in
+      let r := reconcile (k_cfg k) cl p s in
       let s' := fst r in
       let ann := eff_ann p s' in
       let slot (st : state) := match eo_ann o with Some n => get_pg n st | None => None end in
-      (s', Z.eqb (snd r) (eo_writes o)
-           && Bool.eqb (model_err (k_cfg k) (k_cluster k) p (get_asg (p_name p) s)) (eo_err o)
+      ((s', cl), Z.eqb (snd r) (eo_writes o)
+           && Bool.eqb (model_err (k_cfg k) cl p (get_asg (p_name p) s)) (eo_err o)
            && ostr_eqb ann (eo_ann o)
            && opg_ext_eqb (slot s) (eo_before o)
            && opg_ext_eqb (slot s') (eo_after o))
     end
   | ForE n f =>
-    let r := step (k_cfg k) (k_cluster k) (EvForeign n f) s in
-    (fst r, Z.eqb (eo_writes o) 0 && opg_ext_eqb (get_pg n s) (eo_before o)
+    let r := step (k_cfg k) cl (EvForeign n f) s in
+    ((fst r, cl), Z.eqb (eo_writes o) 0 && opg_ext_eqb (get_pg n s) (eo_before o)
             && opg_ext_eqb (get_pg n (fst r)) (eo_after o))
+  | OwnE j ob => ((s, replace_nth j ob cl), Z.eqb (eo_writes o) 0)
   end.
 
 Definition agree_run (k : case) (r : runrec) : bool :=
   let res := fold_left (fun acc e => let x := agree_event k (fst acc) e in (fst x, snd acc && snd x))
-                       (r_events r) (empty_state, true) in
-  let s := fst res in
+                       (r_events r) ((empty_state, k_cluster k), true) in
+  let s := fst (fst res) in
   snd res
   && Nat.eqb (List.length (st_pgs s)) (List.length (r_final r))
   && forallb (fun ng => opg_ext_eqb (get_pg (fst ng) s) (Some (snd ng))) (r_final r)
@@ -159,23 +171,53 @@ Definition order_ok (k : case) : bool :=
                                    && list_eqb ostr_eqb (r_final_ann r0) (r_final_ann r)) rs
   end.
 
-(** (3) idempotence: reconciling a pod again, with no foreign update since its last reconcile,
-    issues no mutating call — for every pod (C18_idempotent, C18_idempotent_interleaved): pods with a stale
-    sub-group label and pods that are their own grouping object are regression inputs of 3f1c7d2 / 8227120 *)
-Definition idem_run_ok (r : runrec) : bool :=
+(** keys of other actors: a label / annotation key that no object of the world carries (the initial cluster -
+    the harness only removes owner keys afterwards - and the pods) and that is none of the keys the grouper
+    writes by itself; the grouper copies labels and annotations, it does not invent keys *)
+Definition keys_of (m : smap) : list string := map fst m.
+Definition world_keys (k : case) : list string :=
+  ([c_queue_key (k_cfg k); c_nodepool_key (k_cfg k); tom_key; user_key; pg_annotation_key; subgroup_label_key]
+   ++ flat_map (fun o => keys_of (o_labels o) ++ keys_of (o_annots o)) (k_cluster k)
+   ++ flat_map (fun p => keys_of (p_labels p) ++ keys_of (p_annots p)) (k_pods k))%list.
+Definition foreign_key (wk : list string) (x : string) : bool := negb (existsb (String.eqb x) wk).
+
+(** a foreign update that only touches keys of other actors (cf. [foreign_to]) *)
+Definition quiet_foreign (wk : list string) (f : foreign_upd) : bool :=
+  match f_queue f, f_mark f, f_backoff f, f_nodepool f, f_qlabel f with
+  | None, None, None, None, None =>
+    forallb (fun u => foreign_key wk (fst u)) (f_labels f) && forallb (fun u => foreign_key wk (fst u)) (f_annots f)
+  | _, _, _, _, _ => false
+  end.
+
+(** (3) idempotence: reconciling a pod again issues no mutating call when, since its last reconcile, nothing
+    happened but reconciles of its siblings and updates of label / annotation keys of other actors on the
+    PodGroup (the scheduler's timestamps, an administrator's keys) - nothing the grouper computes changed
+    (C18_idempotent, C18_idempotent_interleaved, C18_idempotent_with_foreign_keys). Any other foreign update
+    and any change of an owner object start afresh: the reconcile after it may write, the one after that may
+    not. For every pod: pods with a stale sub-group label and pods that are their own grouping object are
+    regression inputs of 3f1c7d2 / 8227120. *)
+Definition idem_run_ok (k : case) (r : runrec) : bool :=
+  let wk := world_keys k in
   snd (fold_left (fun acc e =>
                     match fst e with
                     | RecE i => (i :: fst acc,
                                  snd acc && (negb (existsb (Nat.eqb i) (fst acc)) || Z.eqb (eo_writes (snd e)) 0))
-                    | ForE _ _ => ([], snd acc)
+                    | ForE _ f => if quiet_foreign wk f then acc else ([], snd acc)
+                    | OwnE _ _ => ([], snd acc)
                     end) (r_events r) ([], true)).
 
 (** (4) foreign fields: a reconcile leaves queue, mark-unschedulable, scheduling backoff and the
-    node-pool label of an existing PodGroup as they were, and keeps a present queue label *)
+    node-pool label of an existing PodGroup as they were, keeps a present queue label, and keeps every
+    label and annotation of another actor ([foreign_key]) with its value (C18_foreign_fields_kept,
+    C18_foreign_labels_kept, C18_foreign_annotations_kept) *)
 Definition fview_eqb (a b : fview) : bool :=
   String.eqb (fv_queue a) (fv_queue b) && opt_eqb Bool.eqb (fv_mark a) (fv_mark b)
   && opt_eqb Z.eqb (fv_backoff a) (fv_backoff b) && ostr_eqb (fv_nodepool a) (fv_nodepool b).
+Definition foreign_keys_kept (wk : list string) (before after : option smap) : bool :=
+  forallb (fun kv => negb (foreign_key wk (fst kv)) || ostr_eqb (mget (fst kv) after) (mget (fst kv) before))
+          (match before with Some l => l | None => [] end).
 Definition foreign_ok (k : case) (r : runrec) : bool :=
+  let wk := world_keys k in
   forallb (fun e => match fst e, eo_before (snd e) with
                     | RecE _, Some g =>
                       match eo_after (snd e) with
@@ -184,6 +226,8 @@ Definition foreign_ok (k : case) (r : runrec) : bool :=
                                       | Some v => ostr_eqb (mget (c_queue_key (k_cfg k)) (pg_labels g')) (Some v)
                                       | None => true
                                       end
+                                   && foreign_keys_kept wk (pg_labels g) (pg_labels g')
+                                   && foreign_keys_kept wk (pg_annots g) (pg_annots g')
                       | None => false
                       end
                     | _, _ => true
@@ -191,7 +235,7 @@ Definition foreign_ok (k : case) (r : runrec) : bool :=
 
 Definition monitor_ok (k : case) : bool :=
   match k_check k with
-  | CkIdem => forallb idem_run_ok (k_runs k)
+  | CkIdem => forallb (idem_run_ok k) (k_runs k) && forallb (foreign_ok k) (k_runs k)
   | CkGroup => forallb (siblings_ok k) (k_runs k) && order_ok k && forallb (foreign_ok k) (k_runs k)
   end.
 
